@@ -3987,7 +3987,6 @@ func sharedShadowedResult(c *an.Ctx, rule string, prefixes ...string) (examined 
 	return examined
 }
 
-
 // sharedCharRanges is the boundary rule for hand-written ASCII classes: a
 // comparison of a byte or rune with one of the class boundaries 'A', 'Z', 'a',
 // 'z', '0', '9' must be the inclusive form on the inside of the class
@@ -4265,7 +4264,6 @@ func sharedNoNilInterfaceResult(c *an.Ctx, rule string, allowed map[string]strin
 	return examined
 }
 
-
 // hasAnyPrefix reports whether s starts with one of the prefixes; an empty list
 // accepts everything.
 func hasAnyPrefix(s string, prefixes []string) bool {
@@ -4312,6 +4310,9 @@ var propPkgs = map[string][]string{
 // classification, … that is visible in the shape of the code) over the packages
 // property prop rests on, under the rule id <prop>-RC.
 func classSweep(c *an.Ctx, prop string) {
+	if c.Depth() > 0 {
+		return // run for a borrower, which has its own sweep
+	}
 	rule := prop + "-RC"
 	pk := propPkgs[prop]
 	if len(pk) == 0 {
